@@ -258,6 +258,37 @@ def sequence_item(mol):
     return {"n": n, "fails": fails[:3]}
 
 
+HIST_ALPHABET = ["C=C[O-]", "[O-]C=C", "C([O-])=C", "C=C[O-].[Na+]", "[2H]OC=C", "CC(=O)OCC=C[O-]", "C=CO", "OC=C", "C(O)=C", "CC(=O)OC=C.C=CO",
+                 "CC(O)O", "OC(C)O", "CC(C)(O)OC", "CCO", "C", "OCCN", "CC(=O)O", "C=COC", "OC=CO", "c1ccccc1O"]
+
+
+def _fresh_apply(std, smiles):
+    from mc.pool import time_limit
+
+    try:
+        with time_limit(20):
+            return std(smiles)
+    except Exception as e:  # noqa: BLE001
+        return "raises " + _kind(e)
+
+
+def history_item(a):
+    """two calls on ONE fresh standardizer: f(a), then f(b) for every b - the second answer must be what a fresh
+    standardizer gives for b (nothing may survive a call on the object)"""
+    from synrbl.SynChemImputer.molecule_standardizer import MoleculeStandardizer
+
+    fails, n = [], 0
+    for b in HIST_ALPHABET:
+        s1 = MoleculeStandardizer()
+        _fresh_apply(s1, a)
+        got = _fresh_apply(s1, b)
+        want = _fresh_apply(MoleculeStandardizer(), b)
+        n += 1
+        if got != want:
+            fails.append({"a": a, "b": b, "observed": got, "expected": want})
+    return {"n": n, "fails": fails[:4]}
+
+
 # --------------------------------------------------------------------------- driver
 
 
@@ -313,7 +344,15 @@ def run(tier, seed):
         for f in r["fails"][:1]:
             res.add(Violation("spelling-sequence", m, f["observed"], f["expected"], ["sequence"] + f["key"],
                               "standardising the spellings of {} one after the other: {} gives {}".format(m, f["s"], f["observed"])))
+    rs3 = pmap("checks.c20:history_item", HIST_ALPHABET, chunk=1, seed=seed)
+    for a, r in zip(HIST_ALPHABET, rs3):
+        n_valid += r["n"]
+        for f in r["fails"][:2]:
+            res.add(Violation("call-history", {"a": f["a"], "b": f["b"]}, f["observed"], f["expected"], ["history", "second-call-differs"],
+                              "one standardizer: after f({}) the call f({}) gives {} but a fresh standardizer gives {}".format(
+                                  f["a"], f["b"], f["observed"], f["expected"])))
     res.coverage = {
+        "call_histories": len(HIST_ALPHABET) ** 2,
         "evaluations": n_valid,
         "distinct_nontrivial": n_nontrivial,
         "rule": "evaluations = distinct valid input SMILES standardised (each also "
@@ -346,6 +385,10 @@ def run(tier, seed):
 def replay(v):
     if v.sub == "spelling-sequence":
         r = sequence_item(v.case)
+    if v.sub == "call-history":
+        r = history_item(v.case["a"])
+        return [Violation(v.sub, v.case, f["observed"], f["expected"], v.key, "second call differs") for f in r["fails"] if f["b"] == v.case["b"]][:1]
+    if v.sub == "spelling-sequence":
         return [Violation(v.sub, v.case, f["observed"], f["expected"], ["sequence"] + f["key"], "sequence")
                 for f in r["fails"] if ["sequence"] + f["key"] == v.key][:1]
     r = judge(v.case)
